@@ -82,6 +82,10 @@ def run(prop: str, tier: str) -> int:
                     deg[a] += 1
                     deg[b] += 1
                 groups.setdefault((n, tuple(sorted(st0[0])), tuple(sorted(deg))), []).append(1)
+    if prop in ("C01", "C02", "C04", "C13"):
+        from . import zoo
+
+        zoo.run_all(rep, prop, tier)
     rep.add(orbits=n_orbits, spaces=describe_spaces(spaces), rule=RULES[prop])
     if prop == "C02":
         rep.add(distinct_strings=len(by_string),
